@@ -4,8 +4,12 @@ import (
 	"bytes"
 	"fmt"
 	"net/http"
+	"strings"
 	"sync"
 	"time"
+
+	"golang.org/x/net/http2"
+	"golang.org/x/net/http2/h2c"
 
 	"verif/sim"
 )
@@ -121,6 +125,46 @@ func worldC05(w *World) {
 		}
 		total += chunks[i]
 	}
+	// the agent may run on a VM whose metadata server stalls when the VM identity
+	// token is refreshed (every 10 s); the request is handed out during the stall
+	gce := t.Rare(1, 6, "gce")
+	if gce {
+		idCalls := 0
+		sim.GCE.On = true
+		sim.GCE.Get = func(path string) (string, error) {
+			if strings.Contains(path, "/identity") {
+				idCalls++
+				if idCalls > 1 {
+					w.K.Count("fault.metadata_server_stalls_on_identity_refresh")
+					time.Sleep(25 * time.Second)
+				}
+				return fmt.Sprintf("vm-identity-token-%d", idCalls), nil
+			}
+			return "sa@project.iam.gserviceaccount.example", nil
+		}
+	}
+	// an HTTP/2 (h2c) backend whose single multiplexed connection was opened by an
+	// earlier request almost one --proxy-timeout (60 s here) before the stream
+	h2aged := !gce && !trickle && t.Rare(1, 6, "h2aged") && lat <= time.Millisecond
+	if h2aged {
+		// (the whole stream must stay well below the agent's 60 s client timeout)
+		for i := range chunks {
+			if chunks[i] > 4097 {
+				chunks[i] = 4097
+			}
+		}
+		if n > 6 {
+			n = 6
+			chunks, pauses = chunks[:n], pauses[:n]
+		}
+		total = 0
+		for _, c := range chunks {
+			total += c
+		}
+		for i := range pauses {
+			pauses[i] = []time.Duration{time.Second, 3 * time.Second}[i%2]
+		}
+	}
 	// the backend may take a while before it produces the first byte
 	startDelay := []time.Duration{0, 0, 300 * time.Millisecond, 2 * time.Second}[t.Choice(4, "startdelay")]
 	// bounded time: documented flush interval (100 ms) plus network, with slack
@@ -150,9 +194,27 @@ func worldC05(w *World) {
 	id := "stream1"
 	fp.AddRequest(id, serialiseRequest("GET", "/stream", "example.test", http.Header{"Accept": {"text/html,*/*"}}, nil), "")
 	listed := false
+	warmListed := false
+	if h2aged {
+		fp.AddRequest("warm", serialiseRequest("GET", "/warm", "example.test", http.Header{}, nil), "")
+	}
 	fp.OnList = func(k int, r *http.Request) (int, []byte) {
+		if h2aged && !warmListed {
+			warmListed = true
+			return 200, jsonList([]string{"warm"})
+		}
+		if h2aged && !listed {
+			// the stream starts 55 s after the connection to the backend was opened
+			time.Sleep(55 * time.Second)
+			w.Probe("stream_over_aged_http2_backend_connection")
+		}
 		if !listed {
 			listed = true
+			if gce {
+				// long poll: the request shows up while the identity refresh is stalled
+				time.Sleep(11 * time.Second)
+				w.Probe("upload_starts_while_vm_identity_refresh_stalls")
+			}
 			return 200, jsonList([]string{id})
 		}
 		return 0, nil
@@ -166,7 +228,10 @@ func worldC05(w *World) {
 	htmlType := !banner && t.Rare(1, 3, "htmltype")
 	var mu sync.Mutex
 	sc := &streamCounter{}
-	fp.OnUpload = func(_ string, attempt int, rw http.ResponseWriter, r *http.Request) bool {
+	fp.OnUpload = func(uid string, attempt int, rw http.ResponseWriter, r *http.Request) bool {
+		if uid == "warm" {
+			return false
+		}
 		mu.Lock()
 		*sc = streamCounter{}
 		mu.Unlock()
@@ -193,7 +258,10 @@ func worldC05(w *World) {
 		at   time.Duration
 	}
 	var arrivals []arrival
-	fp.OnChunk = func(_ string, _ int, piece []byte) {
+	fp.OnChunk = func(cid string, _ int, piece []byte) {
+		if cid == "warm" {
+			return
+		}
 		mu.Lock()
 		sc.Feed(piece)
 		b := sc.Body
@@ -216,7 +284,11 @@ func worldC05(w *World) {
 		if err != nil {
 			panic(err)
 		}
-		http.Serve(l, http.HandlerFunc(func(rw http.ResponseWriter, r *http.Request) {
+		handler := http.HandlerFunc(func(rw http.ResponseWriter, r *http.Request) {
+			if r.URL.Path == "/warm" {
+				rw.Write([]byte("warm"))
+				return
+			}
 			if htmlType {
 				rw.Header().Set("Content-Type", "text/html; charset=utf-8")
 			} else {
@@ -273,11 +345,21 @@ func worldC05(w *World) {
 				obs[i].ok = true
 			}
 			finished = true
-		}))
+		})
+		if h2aged {
+			http.Serve(l, h2c.NewHandler(handler, &http2.Server{}))
+			return
+		}
+		http.Serve(l, handler)
 	})
 	// the agent's client timeout bounds the whole upload; a stream that is still
 	// being produced must not run into it, so it is configured out of the way
-	startAgent(w, append(agentArgs, "-proxy-timeout=3h")...)
+	if h2aged {
+		// (default --proxy-timeout of 60 s: the stream itself lasts well below it)
+		startAgent(w, append(agentArgs, "-force-http2")...)
+	} else {
+		startAgent(w, append(agentArgs, "-proxy-timeout=3h")...)
+	}
 	w.K.Spawn("controller", func() {
 		for {
 			time.Sleep(time.Second)
